@@ -128,3 +128,26 @@ func TempRoot(prefix string) (string, error) {
 	}
 	return os.MkdirTemp("", prefix)
 }
+
+// Compact renders a script on one line: name|mbs|steps (W key=val, D key, S, C; !j = fault).
+func (s *Script) Compact() string {
+	var sb strings.Builder
+	fmt.Fprintf(&sb, "%q|%d|", s.Name, s.MBS)
+	for i, st := range s.Steps {
+		if i > 0 {
+			sb.WriteByte(' ')
+		}
+		switch st.K {
+		case KWrite:
+			fmt.Fprintf(&sb, "W%d=%d", st.Key, st.Val)
+		case KDelete:
+			fmt.Fprintf(&sb, "D%d", st.Key)
+		default:
+			sb.WriteString(st.K)
+		}
+		if st.FaultJ >= 0 {
+			fmt.Fprintf(&sb, "!%d", st.FaultJ)
+		}
+	}
+	return sb.String()
+}
